@@ -8,7 +8,7 @@
      run_resave = <load> ++ (run_rt of the loaded picture)   (nothing after a failed first load) *)
 From Coq Require Import NArith ZArith Bool List.
 From IE Require Import Lib.Tbl Lib.C05Lib Gen.Codepage Gen.Formats Model.Attr Model.C05Buf Model.C05Bin Model.C05XBin
-  Model.C05Idf Model.C05Tundra.
+  Model.C05Idf Model.C05Tundra Model.C02Loaders.
 Import ListNotations.
 Local Open Scope Z_scope.
 
@@ -100,9 +100,9 @@ Definition load_fmt (fmt : N) (data : list N) (s : option sauce) : res buffer :=
   match fmt with
   | 0%N => load_bin data s
   | 1%N => load_adf data s
-  | 2%N => load_xb data s
+  | 2%N => load_xb2 data s      (* the loaders as they are after C02's fix commits: Model/C02Loaders.v; *)
   | 3%N => load_idf data
-  | _ => load_tnd data s
+  | _ => load_tnd2 data s       (* Proofs/C02BridgeProofs.v: they accept what load_xb / load_tnd accept, same buffer *)
   end.
 
 Definition run_rt (fmt : N) (compress with_sauce : bool) (p : pic) : list Z :=
